@@ -140,6 +140,8 @@ def run_real(M, kind, T, seed, dt, safe=False, vol0=1.0, volume_factory=None, ql
 
 
 def decode_rows(ans):
+    if not ans["rows"]:
+        return np.zeros((0, 0))        # (a run that ends before the first requested time reports no row)
     return np.array([[b2f(v) for v in row] for row in ans["rows"]], dtype=float).reshape(len(ans["rows"]), -1)
 
 
